@@ -129,7 +129,7 @@ class Gen:
             choices += [("newstr", 6), ("push", 6), ("pushr", 3), ("pop", 6), ("popto", 3), ("oref", 3),
                         ("clones", 2), ("unclone", 2), ("unload", 1 if self.late else 0)]
         else:
-            choices += [("err", 4), ("efun", 12), ("srange", 4), ("rest", 8), ("resto", 2), ("fefun", 6), ("frest", 3)]
+            choices += [("err", 4), ("efun", 12), ("srange", 4), ("rest", 8), ("resto", 2), ("fefun", 6), ("frest", 3), ("reclaim", 3)]
         k = r.weighted(choices)
         S = self.slots
         if k == "newarr":
@@ -437,6 +437,11 @@ class Gen:
                 text = damage(text, r)
             if " " not in text and 0 < len(text) < 200 and not text.startswith("#"):
                 self.emit("%s %s" % (k, text))
+        elif k == "reclaim":
+            for o in range(NOBJ):
+                if self.handle[o] and self.obj[o] is not None and self.obj[o].size >= 1:
+                    self.handle[o] = False
+            self.emit("reclaim")
         elif k == "unload":
             w = r.below(2)
             if not any(o is not None and o.size == 1 for o in self.obj):
@@ -822,6 +827,11 @@ class C06(Prop):
                                             "free 0", "pop", "free 1", "free 2"])
         mk("stack-moves", "unit", ["newarr 0 2", "newmap 1", "push 0", "pushr 1", "push 0", "popto 2", "pop", "popto 3",
                                    "free 0", "free 2", "free 3"])
+        # reclaim_objects(): destructed objects referenced from variables (handles; array / mapping key / mapping value /
+        # function pointer argument built around them) are released, live ones are kept
+        mk("reclaim-objects-lpc", "lpc", ["newobj 0", "newobj 1", "newobj 2", "newobjr 3 2", "newarr 0 2", "newmap 1", "setvar 1 0 0",
+                                          "reclaim", "dest 0", "dest 3", "reclaim", "reclaim", "cleanup", "dest 2", "cleanup", "reclaim",
+                                          "getvar 2 1 0", "dest 1", "reclaim", "cleanup", "free 0", "free 1", "free 2"])
         mk("errors-lpc", "lpc", ["newarr 0 2", "newmap 1", "newobj 0", "mset 1 0 0", "err 0 1", "efun 10 0 1",
                                  "efun 11 0 1", "err 1 0", "free 0", "free 1", "dest 0", "cleanup", "drop 0"])
         # repaired defects: copy() beyond the nesting limit leaked the partial copy; copy() of a class miscounted arrays
